@@ -1,0 +1,23 @@
+//go:build verif
+
+// Contracts for property C10 (copy-on-write discipline of the timed B-tree; also serves C04), checked by /verif (govc).
+// This file is only compiled with -tags verif; it adds no behaviour to the package.
+package tbtree
+
+//@ func (*leafNode).setTs
+//@   requires vals: forall(k, 0, len(l.values), l.values[k] != nil)
+//@   ensures args: old(l._ts) >= ts ==> r1 == ErrIllegalArguments && unchanged(l)
+//@   ensures ok: old(l._ts) < ts ==> r1 == nil
+//@   ensures inplace: old(l._ts) < ts && old(l.mut) ==> sameobj(r0, l) && l._ts == ts && l.mut && l.t == old(l.t) && l.off == old(l.off) && len(l.values) == old(len(l.values))
+//@   ensures cowOrig: !old(l.mut) ==> unchanged(l)
+//@   ensures cowOrigVals: !old(l.mut) ==> forall(k, 0, len(l.values), unchanged(l.values[k]))
+//@   ensures cowFresh: old(l._ts) < ts && !old(l.mut) ==> sameobj(r0, newLeaf) && newLeaf != nil && fresh(newLeaf) && fresh(newLeaf.values)
+//@   ensures cowHdr: old(l._ts) < ts && !old(l.mut) ==> newLeaf.t == l.t && newLeaf._ts == ts && newLeaf.mut && len(newLeaf.values) == len(l.values)
+//@   ensures cowUnshared: old(l._ts) < ts && !old(l.mut) ==> forall(k, 0, len(l.values), newLeaf.values[k] != nil && newLeaf.values[k] != l.values[k])
+//@   ensures cowHist: old(l._ts) < ts && !old(l.mut) ==> forall(k, 0, len(l.values), newLeaf.values[k].hOff == l.values[k].hOff && newLeaf.values[k].hCount == l.values[k].hCount)
+//@   loop 1 invariant range: 0 <= i && i <= len(l.values)
+//@   loop 1 invariant hdr: newLeaf != nil && newLeaf.t == l.t && newLeaf._ts == ts && newLeaf.mut && len(newLeaf.values) == len(l.values)
+//@   loop 1 invariant unshared: forall(k, 0, i, newLeaf.values[k] != nil && newLeaf.values[k] != l.values[k])
+//@   loop 1 invariant hist: forall(k, 0, i, newLeaf.values[k].hOff == l.values[k].hOff && newLeaf.values[k].hCount == l.values[k].hCount)
+//@   loop 1 decreases len(l.values) - i
+//@   loop 1 assigns newLeaf.values
